@@ -623,11 +623,14 @@ func StatefulIsolation(h *vsched.H) {
 		hd = mocrelay.NewRecvEventUniqueFilterMiddleware(2)(&c18Stub{})
 	case 2:
 		hd = mocrelay.NewSendEventUniqueFilterMiddleware(2)(&c18Stub{})
+	case 3:
+		// the chain built from a NIP-11 document (C17): its max_subscriptions is per connection too
+		hd = mocrelay.BuildMiddlewareFromNIP11(&mocrelay.NIP11{Limitation: &mocrelay.NIP11Limitation{MaxSubscriptions: 1, MaxFilters: 5}})(&c18Stub{})
 	}
 	for i, name := range []string{"A", "B"} {
 		var msgs []mocrelay.ClientMsg
 		switch mw {
-		case 0:
+		case 0, 3:
 			msgs = quotaMsgs(c18IsoQuota[variant][i])
 		case 1:
 			for p, id := range []byte(c18IsoUnique[variant][i]) {
@@ -652,7 +655,12 @@ func StatefulIsolation(h *vsched.H) {
 		}
 	}
 	h.WaitQuiescent()
-	sig := "C18/isolation: " + C18IsolationNames[mw] + " state leaks between connections"
+	sig := ""
+	if mw == 3 {
+		sig = "C17/NIP-11: the max_subscriptions state of the chain leaks between connections"
+	} else {
+		sig = "C18/isolation: " + C18IsolationNames[mw] + " state leaks between connections"
+	}
 	for i, c := range conns {
 		var diff []string
 		add := func(format string, a ...any) { diff = append(diff, fmt.Sprintf(format, a...)) }
@@ -665,7 +673,7 @@ func StatefulIsolation(h *vsched.H) {
 			}
 		}
 		switch mw {
-		case 0:
+		case 0, 3:
 			ops := c18IsoQuota[variant][i]
 			forward, _ := quotaModel(ops, 1)
 			seen := map[int]bool{}
